@@ -28,7 +28,8 @@ func isToken(s string) bool {
 	return true
 }
 
-var c12Extensions = []string{"foo", "foo=bar", `foo="a, b"`, "x-no-store", "no-storex", `foo="no-store"`, `bar="must-revalidate, no-cache"`, "community=\"UCI\"", `baz="\"no-store"`, "no-transform", "s-maxage"}
+var c12Extensions = []string{"foo", "foo=bar", `foo="a, b"`, "x-no-store", "no-storex", `foo="no-store"`, `bar="must-revalidate, no-cache"`, "community=\"UCI\"", `baz="\"no-store"`, "no-transform", "s-maxage",
+	`x-only-if-cached=1`, `ext="only-if-cached"`, "only-if-cachedx", `foo="max-age=0"`, "xmax-stale=5", `ext="no-cache, only-if-cached"`}
 
 var c12Huge = []string{"2147483648", "2147483649", "4294967296", "9007199254740992", "9223372036", "9223372037", "9223372036854775807", "9223372036854775808", "18446744073709551616", "1000000000000000000000000000000"}
 
@@ -333,6 +334,18 @@ func C12(t *rapid.T) *world.Scenario {
 			lbl := "rs" + itoa(int64(si))
 			rq := *st.Req
 			rq.Header = respellHeader(t, lbl+"-rq", st.Req.Header, kinds, allowHuge)
+			hasCC := false
+			for _, kv := range rq.Header {
+				if kv[0] == "Cache-Control" {
+					hasCC = true
+				}
+			}
+			if !hasCC && Pct(t, lbl+"-extonly", 12) {
+				// a Cache-Control field that consists of unknown extensions only says nothing
+				// a cache understands: the request is the request without it
+				rq.Header = append(append([][2]string(nil), rq.Header...), H("Cache-Control", Pick(t, lbl+"-extonlyv", c12Extensions...)))
+				kinds["extension-only"] = true
+			}
 			u := cloneReply(&st.Req.Uncond)
 			u.Header = respellHeader(t, lbl+"-u", st.Req.Uncond.Header, kinds, allowHuge)
 			rq.Uncond = *u
